@@ -26,6 +26,9 @@ for m in sorted(os.listdir(os.path.join(wt, "out"))):
     mp = os.path.join(dst, "meta.json")
     meta = json.load(open(mp)) if os.path.exists(mp) else {}
     meta["property"] = ID
+    cp = os.path.join(dst, "confirm.json")
+    if os.path.exists(cp):
+        meta["coordinator_confirm"] = json.load(open(cp)); os.remove(cp)
     meta["coordinator_run"] = dict(res.get(m, {}), command="git apply patch.diff in a scratch worktree; VERIF_REPO=<worktree> bin/check %s" % ID)
     json.dump(meta, open(mp, "w"), indent=1)
     print(m, res.get(m))
